@@ -240,7 +240,7 @@ class _Rec:
     def TemplateResponse(self, *a, **k):
         return ("template", a[1] if len(a) > 1 else None)
 
-def queue_get(kind_i, limit, n, missing_mask):
+def queue_get(kind_i, limit, n, missing_mask, multiset_only=False):
     """the GET handler itself runs traced with the symbolic limit"""
     global LAST_DETAIL
     kind = ["mem", "sqlite"][kind_i]
@@ -268,9 +268,8 @@ def queue_get(kind_i, limit, n, missing_mask):
         vb.templates = saved
         after = queue_list(app, kind)
         LAST_DETAIL = {"kind": kind, "n": n, "missing_mask": missing_mask, "before": before, "after": after, "outcome": outcome}
-        if after != before:
-            import sys as _s
-            print("QUEUE-DIFF", LAST_DETAIL, file=_s.stderr)
+    if multiset_only:
+        return sorted(after) == sorted(before)
     return after == before
 '''
 
@@ -304,14 +303,26 @@ def finding_queue_rotates(kind_i: int, limit: int, n: int) -> bool:
     kind_i = pick(kind_i, 0, 1); n = pick(n, 2, 4)
     return queue_get(kind_i, limit, n, 0)
 
-def finding_queue_loses(kind_i: int, limit: int, n: int, mask: int) -> bool:
+def queue_never_loses(kind_i: int, limit: int, n: int, mask: int) -> bool:
     """
     pre: 0 <= kind_i <= 1 and 1 <= n <= 3 and 1 <= mask < 8
+    pre: kind_i == 0 or -1 <= limit <= 6
+    post: _
+    """
+    # whatever the limit and whichever records are missing (the page fails): no queued message disappears
+    kind_i = pick(kind_i, 0, 1); n = pick(n, 1, 3); mask = pick(mask, 1, 7)
+    if mask >= (1 << n):
+        return True
+    return queue_get(kind_i, limit, n, mask, multiset_only=True)
+
+def finding_queue_rotates_on_failure(kind_i: int, limit: int, n: int, mask: int) -> bool:
+    """
+    pre: 0 <= kind_i <= 1 and 2 <= n <= 3 and 1 <= mask < 8
     pre: limit >= n
     pre: kind_i == 0 or limit <= 6
     post: _
     """
-    kind_i = pick(kind_i, 0, 1); n = pick(n, 1, 3); mask = pick(mask, 1, 7)
+    kind_i = pick(kind_i, 0, 1); n = pick(n, 2, 3); mask = pick(mask, 1, 7)
     if mask >= (1 << n):
         return True
     return queue_get(kind_i, limit, n, mask)
@@ -359,8 +370,10 @@ def run(ctx: Ctx) -> None:
         Cond("queue_twin", "refute", 120),
         Cond("finding_queue_rotates", "finding", 300, key="C20:queue_view:rotates-order-when-queue-longer-than-limit",
              what="GET /broker/queue?limit=k with more than k queued messages pops k and re-appends them behind the rest: the queue order changes"),
-        Cond("finding_queue_loses", "finding", 300, key="C20:queue_view:loses-messages-when-record-missing",
+        Cond("queue_never_loses", "confirm", 600, keyfn=lambda a, k: "C20:queue_view:loses-messages-when-record-missing",
              what="GET /broker/queue pops messages, then state_backend.get_invocation raises for an id without a stored record: the popped messages are never routed back"),
+        Cond("finding_queue_rotates_on_failure", "finding", 300, key="C20:queue_view:rotates-order-when-a-lookup-fails",
+             what="GET /broker/queue fails on a queued id without a stored record: the messages popped so far are re-queued behind the rest, the queue order changes"),
     ]
     skip = {"broker.queue_view"}
     covered = []
